@@ -308,6 +308,108 @@ def parse_contracts(facts, entries):
     return out
 
 
+# ------------------------------------------------------------------ registration (check_claim / validate_claim / extend_*): state contracts
+def _showmap(I, st, x):
+    x = MD.deref(I, st, x)
+    if not MI.is_map(x):
+        return None
+    ents = []
+    for e in MI._entries(x):
+        v = MD.deref(I, st, e.fields["1"])
+        ents.append((str(MD.str_key(I, st, e.fields["0"])[1]), getattr(v, "name", repr(v))))
+    return dict(ents) if len(dict(ents)) == len(ents) else None
+
+
+def registration_contracts(facts):
+    """C15.R5 / C16.R5: the registration functions of GenericParser are interpreted from every combination of pre-existing entries
+    (expected claims and validators: none, one under another key, one under the same key, both) and the maps afterwards are compared with
+    the stated contract: the new entry is stored under the claim's key replacing an earlier one, every other entry of both maps is kept."""
+    out = []
+    K, O, N = "K", "other", "fresh"
+    subsets = [[], [O], [K], [K, O]]
+
+    def find(name):
+        bs = [b for bid, b in facts.bodies.items() if (b.get("name") or bid.rsplit("::", 1)[-1]) == name and re.search(r"generic_parser::GenericParser::<", bid) and "{closure" not in bid]
+        return bs[0] if len(bs) == 1 else None
+    fns = [("check_claim", ("C15.R5",)), ("validate_claim", ("C15.R5", "C16.R5")), ("extend_check_claims", ("C15.R5",)), ("extend_validation_claims", ("C16.R5",))]
+    for name, rules in fns:
+        b = find(name)
+        if b is None:
+            for r in rules:
+                _f(out, r, False, "GenericParser::" + name, "anchor missing", "registration function %s not found" % name)
+            continue
+        v = M.view(facts, b)
+        bid, file, line = b["id"], v.file(), b["line"]
+        probs = {"C15.R5": [], "C16.R5": []}
+        und = None
+        for cs in subsets:
+            for vs in subsets:
+                I = interp(facts)
+                st = A.State()
+                claims0 = dict((k, "oldE_" + k) for k in cs)
+                vals0 = dict((k, "oldV_" + k) for k in vs)
+                pv = parser_value(st)
+                pv.fields["claims"] = MI.mapv("claims", [(A.StrV(k), A.Sym(n, attrs={"expected_of": k})) for k, n in claims0.items()])
+                pv.fields["claim_validators"] = MI.mapv("claim_validators", [(A.StrV(k), A.Sym(n, attrs={"validator": n})) for k, n in vals0.items()])
+                me = st.new_cell(pv)
+                newc = A.Sym("NEW", attrs={"claim_key": K, "expected_of": K})
+                newf = A.Sym("F", attrs={"validator": "F"})
+                want_c, want_v = dict(claims0), dict(vals0)
+                if name == "check_claim":
+                    args = [A.Ptr(me), newc]
+                    want_c[K] = "NEW"
+                elif name == "validate_claim":
+                    args = [A.Ptr(me), newc, A.Ptr(st.new_cell(newf))]
+                    want_c[K] = "NEW"
+                    want_v[K] = "F"
+                elif name == "extend_check_claims":
+                    args = [A.Ptr(me), MI.mapv("arg", [(A.StrV(K), A.Sym("NEW_K")), (A.StrV(N), A.Sym("NEW_fresh"))])]
+                    want_c.update({K: "NEW_K", N: "NEW_fresh"})
+                else:
+                    args = [A.Ptr(me), MI.mapv("arg", [(A.StrV(K), A.Sym("F_K")), (A.StrV(N), A.Sym("F_fresh"))])]
+                    want_v.update({K: "F_K", N: "F_fresh"})
+                outs = I.run(b, args, st)
+                bad = [o for o in outs if o.kind != "return" or o.state.unmodelled or any("undecided" in n for n in o.state.notes)]
+                if bad or not outs:
+                    o = bad[0] if bad else None
+                    und = "no outcome" if o is None else "%s; unmodelled %s; notes %s" % (o.kind, o.state.unmodelled[:2], [n for n in o.state.notes if "undecided" in n][:1])
+                    break
+                pre = "expected claims %s, validators %s" % (sorted(claims0), sorted(vals0))
+                for o in outs:
+                    me_v = MD.deref(I, o.state, A.Ptr(me))
+                    gc = _showmap(I, o.state, me_v.fields.get("claims")) if isinstance(me_v, A.Struct) else None
+                    gv = _showmap(I, o.state, me_v.fields.get("claim_validators")) if isinstance(me_v, A.Struct) else None
+                    if gc is None or gv is None:
+                        und = "the parser's maps are not concrete after the call"
+                        break
+                    if name == "check_claim":
+                        # whether an earlier validator under the same key survives a plain check_claim is not stated: not compared
+                        gv = dict((k, x) for k, x in gv.items() if k != K)
+                        wv = dict((k, x) for k, x in want_v.items() if k != K)
+                    else:
+                        wv = want_v
+                    if gc != want_c:
+                        probs["C15.R5"].append("from [%s] the expected claims become %s, not %s" % (pre, sorted(gc.items()), sorted(want_c.items())))
+                    if gv != wv:
+                        probs["C16.R5"].append("from [%s] the validators become %s, not %s" % (pre, sorted(gv.items()), sorted(wv.items())))
+                if und:
+                    break
+            if und:
+                break
+        for r in ("C15.R5", "C16.R5"):
+            if und:
+                if r in rules:
+                    _f(out, r, None, bid, "%s not decided by the abstract interpreter" % name, und, line, file)
+                continue
+            # the other map must be left alone by every registration function: reported under the rule of the map that was disturbed
+            ok = not probs[r]
+            if r in rules or not ok:
+                _f(out, r, ok, bid, "registration contract of %s" % name,
+                   "%s must store the new entry under the claim's key (replacing an earlier one) and keep every other expected claim and validator; %s" % (name, "; ".join(probs[r][:2])),
+                   line, file, desc="%s: from all 16 combinations of earlier entries the %s afterwards are the earlier ones with the new entry stored under its key" % (name, "expected claims" if r == "C15.R5" else "validators"))
+    return out
+
+
 _memo = {}
 
 
